@@ -237,7 +237,7 @@ pub fn reach_scenarios_mode(tier: Tier, base: &[&'static str], resize: bool, clo
     let shapes: Vec<(usize, usize, usize, u8, bool)> = if b.thorough {
         vec![(1, 2, 0, 0, true), (1, 3, 1, 0, true), (2, 2, 1, 0, true), (2, 3, 2, 0, true), (3, 3, 2, 0, false), (2, 3, 1, 2, false), (2, 2, 2, 3, true), (0, 2, 0, 0, true)]
     } else {
-        vec![(1, 2, 0, 0, true), (2, 2, 1, 0, true), (2, 3, 2, 0, false), (1, 2, 1, 2, false), (0, 2, 0, 0, true)]
+        vec![(1, 2, 0, 0, true), (2, 2, 1, 0, true), (2, 3, 2, 0, false), (1, 2, 1, 2, false), (0, 2, 0, 0, true), (3, 2, 3, 0, false)]
     };
     for (ms, tasks, prefill, layout, rich) in shapes {
         let mut c = PoolCfg::simple(ms);
@@ -762,6 +762,8 @@ pub fn spec_for(prop: &str, tier: Tier) -> Option<CheckSpec> {
             let mut v = c08_scenarios(tier);
             v.extend(reach_scenarios(tier, &["C08"], true, false));
             v.extend(reach_scenarios_mode(tier, &["C08"], true, false, true));
+            v.extend(reach_scenarios(tier, &["C08"], false, false));
+            v.extend(reach_scenarios_mode(tier, &["C08"], false, false, true));
             v
         }
         "C09" => {
